@@ -134,8 +134,10 @@ def verify_contract(reg: Registry, con: Contract, timeout_ms: int = 10000, secon
             _run_path(reg, con, func, defcls, p, it, res, is_lemma)
             res.paths += 1
         except DeadPath:
+            # the path became infeasible (e.g. after assuming a callee's precondition): obligations emitted *before* that point carry their own
+            # path-condition snapshot and still count - dropping them would hide exactly the call whose precondition fails
             res.dead_paths += 1
-            continue
+            p.entry_bound = None  # type: ignore[attr-defined]  # no vacuity canary on a dead path
         except PathEnd:
             res.paths += 1
         except TraceMisaligned as e:
